@@ -109,7 +109,7 @@ def rotate_psi(nn_state, basis, space, unitaries=None, psi=None):
         else psi.to(dtype=torch.double, device=nn_state.device)
     )
 
-    unitaries = unitaries if unitaries else nn_state.unitary_dict
+    unitaries = unitaries or getattr(nn_state, "unitary_dict", None) or create_dict()
     unitaries = {k: v.to(device=nn_state.device) for k, v in unitaries.items()}
     us = [unitaries[b] for b in basis]
     return _kron_mult(us, psi)
@@ -140,7 +140,7 @@ def rotate_rho(nn_state, basis, space, unitaries=None, rho=None):
         else rho.to(dtype=torch.double, device=nn_state.device)
     )
 
-    unitaries = unitaries if unitaries else nn_state.unitary_dict
+    unitaries = unitaries or getattr(nn_state, "unitary_dict", None) or create_dict()
     unitaries = {k: v.to(device=nn_state.device) for k, v in unitaries.items()}
     us = [unitaries[b] for b in basis]
 
@@ -152,7 +152,7 @@ def rotate_rho(nn_state, basis, space, unitaries=None, rho=None):
 
 # TODO: make this a generator function
 def _rotate_basis_state(nn_state, basis, states, unitaries=None):
-    unitaries = unitaries if unitaries else nn_state.unitary_dict
+    unitaries = unitaries or getattr(nn_state, "unitary_dict", None) or create_dict()
     unitaries = {k: v.to(device="cpu") for k, v in unitaries.items()}
 
     basis = np.array(list(basis))
